@@ -33,6 +33,7 @@ func init() {
 			{ID: "C20-R10", Title: "the lexer's cursor fields move together", Floor: 1, Run: cursorFieldsMoveTogether},
 			{ID: "C20-R11", Title: "every spelling of a line break is lexed under the same conditions", Floor: 1, Run: lineEndingsTreatedAlike},
 			{ID: "C20-R12", Title: "runs of line breaks are stepped over by loops", Floor: 1, Run: newlineRunsSkippedByLoops},
+			{ID: "C20-R13", Title: "diagnostics are not built by using a message as a format (shared with C01)", Floor: 1, Run: messagesAreNotFormats},
 		},
 	})
 }
